@@ -441,12 +441,14 @@ theorem commit_good (rootHist : Hist) (s : Session) (hs : s.Good) (rn stamp proc
 def cNotFound_u (env : Env) (t : Node) (rootHist : Hist) (o : CreateOpts) : List RelPath :=
   (expectedPaths rootHist).filter fun p => !(cState env t rootHist o).found.contains p
 
-/-- session, not-found paths and renames after the optional rename detection (`-dr`) -/
+/-- session, not-found paths and renames after the optional rename detection (`-dr`).
+D19: the detection visits the not-found paths in the sorted order of their path strings (`sorted(not_found_paths)`);
+before, the list handed to `detectRenames` was `cNotFound_u env t rootHist o` itself. -/
 def cRen (env : Env) (t : Node) (rootHist : Hist) (o : CreateOpts) :
     Session × List RelPath × List (String × String) :=
   if o.detectRenaming then
     let r := detectRenames env t rootHist (cState env t rootHist o).session (cState env t rootHist o).newPaths
-      (cNotFound_u env t rootHist o)
+      (isort (fun a b => strLe (posix a) (posix b)) (cNotFound_u env t rootHist o))
     (r.1, (cNotFound_u env t rootHist o).filter fun p => !r.2.1.contains p, r.2.2)
   else ((cState env t rootHist o).session, cNotFound_u env t rootHist o, [])
 
@@ -636,7 +638,8 @@ def createFolderWith (sp : String → RelPath) (env : Env) (t : Node) (o : Creat
           | none => some p
     let (session, notFound, renamed) :=
       if o.detectRenaming then
-        let (s, foundOld, ren) := detectRenames env t rootHist st.session st.newPaths notFound
+        let (s, foundOld, ren) := detectRenames env t rootHist st.session st.newPaths
+          (isort (fun a b => strLe (posix a) (posix b)) notFound)
         (s, notFound.filter fun p => !foundOld.contains p, ren)
       else (st.session, notFound, [])
     match commit rootHist session env.rootName env.stamp "in-place" with
